@@ -463,6 +463,18 @@ async fn on_commitment_revocation(
     let proxy = plugin.state().lock().unwrap().proxy.clone();
 
     for (tower_id, net_addr, status) in towers {
+        // The same revocation may be notified more than once. A tower for which it is already on record is left alone:
+        // sending it again would only record it a second time (e.g. accepted and pending at once).
+        if plugin
+            .state()
+            .lock()
+            .unwrap()
+            .has_appointment(tower_id, locator)
+        {
+            log::debug!("{locator} is already on record for {tower_id}");
+            continue;
+        }
+
         if status.is_reachable() {
             match http::add_appointment(tower_id, &net_addr, &proxy, &appointment, &signature).await
             {
